@@ -76,6 +76,18 @@ def enc_arr(a, idx):
     return out
 
 
+def imax_of(enc):
+    """1-based position of the largest finite magnitude of an encoded array (0: none); the trace spec verifies it"""
+    best, pos = None, 0
+    for i, me in enumerate(enc):
+        if me == NAN:
+            continue
+        key = (me[0] != 0, me[1] if me[0] else 0, abs(me[0]))
+        if best is None or key > best:
+            best, pos = key, i + 1
+    return pos
+
+
 def pick_idx(n, limit):
     if n <= limit:
         return list(range(n))
@@ -255,12 +267,19 @@ def main(tier, seed):
                         d[~numpy.isfinite(d)] = numpy.inf if info["kind"] != "log" else 0
                     if len(b) > limit and info["kind"] == "num":
                         idx = sorted(set(idx) | {int(numpy.argmax(d))})
-                    q["obs"].append({"key": k, "base": enc_arr(b, idx), "val": enc_arr(o, idx), "fac": dec_enc(fac), "logfac": dec_enc(logfac),
+                    eb = enc_arr(b, idx)
+                    q["obs"].append({"key": k, "base": eb, "imax": imax_of(eb), "val": enc_arr(o, idx), "fac": dec_enc(fac), "logfac": dec_enc(logfac),
                                      "vec": sorted([a, e] for a, e in vec.items())})
                 else:
-                    q["obs"].append({"key": k, "base": enc_arr(b, range(len(b)))[:limit], "val": enc_arr(o, range(len(o)))[:limit + 1] if len(o) != len(b) else [],
+                    eb = enc_arr(b, range(len(b)))[:limit]
+                    q["obs"].append({"key": k, "base": eb, "imax": imax_of(eb), "val": enc_arr(o, range(len(o)))[:limit + 1] if len(o) != len(b) else [],
                                      "fac": dec_enc(fac), "logfac": dec_enc(logfac), "vec": sorted([a, e] for a, e in vec.items())})
         trecs.append(q)
+    import os
+    if os.environ.get("VERIF_DEBUG_DUMP"):
+        import json
+        with open(os.environ["VERIF_DEBUG_DUMP"], "w") as f:
+            json.dump(trecs, f)
     verdicts = parallel_oracle("InvarianceTrace", trecs, 400)
     run.set(wall_breakdown={"tlc_model_checking_and_cover": round(t_mc - t_start, 1), "real_runs": round(t_runs - t_mc, 1),
                             "plan_oracle": round(t_oracle - t_runs, 1), "trace_validation": round(time.time() - t_oracle, 1)})
